@@ -36,7 +36,7 @@ def post(vc, ctx, res, rundir):
     runs = int(os.environ.get("VERIF_FUZZ_RUNS", "150000"))   # per job; 16 jobs (about 2000 exec/s in total on this VM)
     env = dict(os.environ, ASAN_OPTIONS="abort_on_error=1:detect_leaks=0:allocator_may_return_null=1:quarantine_size_mb=8:malloc_context_size=4",
                UBSAN_OPTIONS="print_stacktrace=1:halt_on_error=1:abort_on_error=1")
-    cmd = [exe, "-runs=%d" % runs, "-jobs=16", "-workers=16", "-max_len=3072", "-timeout=300", "-report_slow_units=120", "-rss_limit_mb=6000", "-print_final_stats=1",
+    cmd = [exe, "-runs=%d" % runs, "-jobs=16", "-workers=%d" % int(os.environ.get("VERIF_FUZZ_WORKERS", "16")), "-max_len=3072", "-timeout=300", "-report_slow_units=120", "-rss_limit_mb=6000", "-print_final_stats=1",
            "-artifact_prefix=" + os.path.join(rundir, "art-"), corpus]
     d = os.path.join(vc.REPO, "fuzz", "url.dict")
     if os.path.exists(d):
